@@ -171,16 +171,37 @@ func runC12(c *Ctx, r *Report) {
 			known bool
 		}
 		var tables []table
-		pc := pathConds(newExec)
+		// the function that holds the tables: NewExecutor itself or a helper it calls
+		tableFn := newExec
+		var helperCall *ssa.Call
+		hasTables := func(f *ssa.Function) bool {
+			found := false
+			eachInstr(f, func(in ssa.Instruction) {
+				if call, ok := in.(*ssa.Call); ok && calleeName(call.Common()) == "strings.NewReplacer" {
+					found = true
+				}
+			})
+			return found
+		}
+		if !hasTables(newExec) {
+			eachInstr(newExec, func(in ssa.Instruction) {
+				if call, ok := in.(*ssa.Call); ok {
+					if g := call.Common().StaticCallee(); g != nil && g.Blocks != nil && g.Pkg == newExec.Pkg && hasTables(g) {
+						tableFn, helperCall = g, call
+					}
+				}
+			})
+		}
+		pc := pathConds(tableFn)
 		var fishCmp *ssa.BinOp
-		eachInstr(newExec, func(in ssa.Instruction) {
+		eachInstr(tableFn, func(in ssa.Instruction) {
 			call, ok := in.(*ssa.Call)
 			if !ok || calleeName(call.Common()) != "strings.NewReplacer" {
 				return
 			}
 			pairs, ok := replacerPairs(call)
 			if !ok {
-				r.unest(relName(newExec)+":replacer table", in.Pos(), newExec, "constant replacer table", "arguments are not all constants")
+				r.unest(relName(newExec)+":replacer table", in.Pos(), tableFn, "constant replacer table", "arguments are not all constants")
 				return
 			}
 			t := table{pairs: pairs, call: call}
@@ -211,9 +232,22 @@ func runC12(c *Ctx, r *Report) {
 				}
 			})
 			same := false
-			for v := range backwardSlice(fishCmp.X, func(*ssa.CallCommon) bool { return true }, func(v ssa.Value) bool { return v == shellStored }) {
-				if v == shellStored {
-					same = true
+			if helperCall == nil {
+				for v := range backwardSlice(fishCmp.X, func(*ssa.CallCommon) bool { return true }, func(v ssa.Value) bool { return v == shellStored }) {
+					if v == shellStored {
+						same = true
+					}
+				}
+			} else {
+				// the helper decides from one of its parameters; the argument passed for it must be the stored shell
+				for v := range backwardSlice(fishCmp.X, func(*ssa.CallCommon) bool { return true }, nil) {
+					if p, ok := v.(*ssa.Parameter); ok && p.Parent() == tableFn {
+						for i, q := range tableFn.Params {
+							if q == p && i < len(helperCall.Call.Args) && helperCall.Call.Args[i] == shellStored {
+								same = true
+							}
+						}
+					}
 				}
 			}
 			// and nothing else feeds it except constants
@@ -565,4 +599,5 @@ func runC12(c *Ctx, r *Report) {
 	})
 	r.floor("uses of environment name/value in runProxy", nv, 2)
 	r.exempt("BASH_FUNC_*%%", "bash function bodies are exported as function definitions by design (name + body, export -f)")
+	c12round2(c, r)
 }
